@@ -117,6 +117,9 @@ RULE = ("Kani harnesses over the two predicates with_function relies on: is_vali
 
 
 def check(run, only=None):
+    from .. import e3
+    e3.run_parts(run, ['builder'], only=only)
+    run.notes.append('E3 (MIR symbolic execution): Builder::with_rule / with_rules, add_boxed_function, symbol insert / append as inductive steps from arbitrary builder states')
     hs = gen(run, run.tier)
     if only:
         hs = [h for h in hs if only in h.name]
@@ -139,5 +142,9 @@ def check(run, only=None):
 
 
 def replay(run, path):
+    import json as _json
+    if _json.load(open(path)).get("replay", {}).get("engine") == "e3":
+        from ..e3replay import replay_file as _rf
+        return _rf(run, path)
     from ..replay import replay_file
     return replay_file(run, path, gen_all=lambda: gen(run, "thorough"), file=FILE, tag="c15", preamble=PREAMBLE)
